@@ -87,6 +87,9 @@ pub fn call_r(r: u8) -> Ins {
 pub fn jrcxz(target: usize) -> Ins {
     Ins { bytes: vec![0xe3, 0], target: Some(target), rel32: false }
 }
+pub fn jecxz(target: usize) -> Ins {
+    Ins { bytes: vec![0x67, 0xe3, 0], target: Some(target), rel32: false }
+}
 /// mov [rsp+d8], r  /  mov r, [rsp+d8]
 pub fn store_rsp(r: u8, d: i8) -> Ins {
     ins(&[0x48, 0x89, 0x44 | (r << 3), 0x24, d as u8])
@@ -155,7 +158,7 @@ pub fn random_program_on(rng: &mut Rng, n: usize, rets: bool, regs: &[u8]) -> Ve
             14 | 15 if rets => ret(),
             16 => push_r(r),
             17 => pop_r(r),
-            18 if regs.contains(&1) => jrcxz(t),
+            18 if regs.contains(&1) => if rng.chance(1, 2) { jecxz(t) } else { jrcxz(t) },
             _ => nop(),
         };
         p.push(i);
@@ -291,9 +294,15 @@ pub fn gen_c18(tier: &str, seed: u64, out: &mut Vec<String>) {
             prog = build(addrs[3], second);
         }
         prog.extend(random_program(&mut rng, plen, true));
-        let (code, _) = assemble(&prog, CODE);
-        emit_new(out, &code, CODE);
-        out.push(setregs_at(&mut rng, CODE));
+        let (code, addrs) = assemble(&prog, CODE);
+        // the run usually starts at the first byte of the code; sometimes at a later instruction (the opening trace entry and
+        // the outermost call-stack frame name the entry point, not the start of the code)
+        let entry = if rng.chance(1, 4) { addrs[rng.below(prog.len() as u64) as usize] } else { CODE };
+        out.push(format!("new {} {:x} {:x}", hex(&code), CODE, entry));
+        dec_all(&code, CODE, out);
+        out.push("trace".into());
+        out.push("callstack".into());
+        out.push(setregs_at(&mut rng, entry));
         out.push("stack 400".into());
         if rng.chance(1, 5) {
             // the rendered state may contain an empty area (a heap shrunk to nothing, init_stack(0), …)
@@ -314,11 +323,14 @@ pub fn gen_c18(tier: &str, seed: u64, out: &mut Vec<String>) {
 pub fn gen_c12(tier: &str, seed: u64, out: &mut Vec<String>) {
     let mut rng = Rng::new(seed ^ 0xC12);
     let n = if tier == "thorough" { 3000 } else { 300 };
-    let outcomes = ["unhandled", "unhandled", "handled", "stop", "stophandled", "error", "tryreg"];
+    let outcomes = ["unhandled", "unhandled", "handled", "stop", "stophandled", "error", "tryreg", "stoperror"];
     for case in 0..n {
         if case % 11 == 10 {
             // a hook tries to register from inside (refused); the same registration made afterwards, outside any hook, works
-            let prog = vec![nop(), mov_r_imm32(0, 60), syscall(), nop()];
+            // (the instruction that needs a handler varies: without one it fails, refused attempts count for nothing)
+            let needy = match rng.below(4) { 0 => ins(&[0xcc]), 1 => ins(&[0xcd, 0x80]), 2 => ins(&[0xf1]), _ => syscall() };
+            let is_sys = needy.bytes == vec![0x0f, 0x05];
+            let prog = vec![nop(), mov_r_imm32(0, 60), needy, nop()];
             let (code, _) = assemble(&prog, CODE);
             emit_new(out, &code, CODE);
             out.push(setregs_at(&mut rng, CODE));
@@ -326,7 +338,7 @@ pub fn gen_c12(tier: &str, seed: u64, out: &mut Vec<String>) {
             out.push("step".into());
             out.push("log".into());
             out.push("sys".into());
-            if rng.chance(3, 4) {
+            if is_sys && rng.chance(1, 2) {
                 out.push("syscalls 60".into());
             }
             out.push("hook before Mov late unhandled -".into());
@@ -424,11 +436,26 @@ pub fn gen_c13(tier: &str, seed: u64, out: &mut Vec<String>) {
             emit_new(out, &code, 0x1000);
             out.push(setregs_at(&mut rng, 0x1000));
             out.push("syscalls 12".into());
-            for arg in [0u64, *rng.pick(&[1u64 << 40, 1 << 44, 1 << 52, (1 << 63) - 1, 1 << 63, u64::MAX - 0x1000]), 0] {
+            let huge = *rng.pick(&[1u64 << 40, 1 << 44, 1 << 52, 1 << 60, (1 << 63) - 1, 1 << 63, u64::MAX - 0x1000]);
+            // query, data into the heap, a request no host can satisfy, the data again, an ordinary growth, the data again
+            for (k, arg) in [0u64, huge, 0, 0].iter().enumerate() {
                 out.push("rw 64 RAX c".into());
-                out.push(format!("rw 64 RDI {:x}", arg));
+                if k == 3 {
+                    out.push("cpreg RDI R15 1800".into());
+                } else {
+                    out.push(format!("rw 64 RDI {:x}", arg));
+                }
                 out.push("step".into());
                 out.push("rr 64 RAX".into());
+                if k == 0 {
+                    // R15 := heap base (break - 0x1000); store through the guest-visible API
+                    out.push("cpreg R15 RAX fffffffffffff000".into());
+                    out.push("cpreg R14 RAX fffffffffffffff8".into());
+                    out.push("stat R15 1234567812345678".into());
+                    out.push("stat R14 5678".into());
+                }
+                out.push("ldat R13 R15".into());
+                out.push("ldat R12 R14".into());
                 out.push("step".into());
             }
             out.push("areas".into());
@@ -443,7 +470,8 @@ pub fn gen_c13(tier: &str, seed: u64, out: &mut Vec<String>) {
         let mut neighbours: Vec<(u64, u64)> = vec![];
         for _ in 0..rng.below(4) {
             let start = 0x1000 * (1 + rng.below(6));
-            let len = 1 + rng.below(0x1800);
+            // also empty areas: they occupy no address but have a start
+            let len = if rng.chance(1, 6) { 0 } else { 1 + rng.below(0x1800) };
             out.push(format!("zero {:x} {:x} ~", start, len));
             neighbours.push((start, len));
         }
@@ -640,10 +668,14 @@ pub fn gen_c14(tier: &str, seed: u64, out: &mut Vec<String>) {
                 8 => {
                     // wrong end / foreign descriptor: left for the user hook
                     out.push(format!("rw 64 RAX {}", rng.below(2)));
-                    if rng.chance(1, 2) {
-                        out.push(format!("rw 64 RDI {:x}", rng.below(3)));
-                    } else {
-                        out.push(format!("ldreg RDI {:x}", BUF + 16 * p + 8 * rng.below(2)));
+                    match rng.below(4) {
+                        0 | 1 => out.push(format!("rw 64 RDI {:x}", rng.below(3))),
+                        2 => out.push(format!("ldreg RDI {:x}", BUF + 16 * p + 8 * rng.below(2))),
+                        _ => {
+                            // a descriptor is the whole 64-bit register: one that equals a pipe end only in its low half is foreign
+                            out.push(format!("ldreg RDI {:x}", BUF + 16 * p + 8 * rng.below(2)));
+                            out.push(format!("cpreg RDI RDI {:x}", *rng.pick(&[1u64 << 32, 1 << 63, 0xffff_ffff_0000_0000, 1 << 16])));
+                        }
                     }
                     out.push(format!("rw 64 RSI {:x}", data));
                     out.push(format!("rw 64 RDX {:x}", *rng.pick(&[4u64, 0, 0, 1, 0x40])));
